@@ -294,19 +294,5 @@ Proof.
   destruct (Hs sn Hsn) as (es & rs & Hi & Hke & Hg & Hm).
   destruct (Hh Hhit) as (ed & Hid & Hkd & Hgd & Hle).
   exists t, p1, eb, mid, o, tmo, es, rs, ed. repeat split; auto; try congruence.
-  - lia.
-  - assert (Hin : In ed pre). { rewrite Hpre. apply in_or_app. right. now right. }
-    pose proof (times_run _ _ Ha _ Hin). destruct (step_clock _ _ _ He). lia.
-  - apply (inflight_spec _ _ _ _ r Ha Hx). auto.
-Qed.
 
-(** D11: a second Drain of a target that is already draining returns at once: no drain is opened *)
-Lemma c03_early_return_lem : forall pre e post s t timeout,
-  run step init (pre ++ e :: post) = Some s -> e_k e = KDrainBegin t TDraining timeout ->
-  exists s1 s2, run step init pre = Some s1 /\ step s1 e = Some s2 /\
-    targets s2 = targets s1 /\ lbs s2 = lbs s1 /\ reqs s2 = reqs s1.
-Proof.
-  intros pre e post s t timeout Hrun Hk. destruct (run_app _ _ _ _ _ _ Hrun) as (s1 & s2 & Ha & He & _).
-  exists s1, s2. repeat split; auto.
-  all: destruct (step_KDrainBegin _ _ _ _ _ _ He Hk) as (x & _ & _ & [[_ ->]|[Hn _]]); [reflexivity|congruence].
-Qed.
+Show.
